@@ -1,0 +1,578 @@
+// Verification contracts (comment-only, compiled only with the "verif" build tag; read by /verif/govc).
+
+//go:build verif
+// +build verif
+
+package state
+
+// Property C16 — the IMPLEMENTATION side of the vm.StateDB interface that the EVM frame constructors call
+// (core/vm/verif_contracts_c16.go assumes: Snapshot records, RevertToSnapshot re-installs, CreateAccount carries the balance
+// over, AddBalance/SubBalance/Suicide change balances exactly, and all of it is undone by a revert).
+// "A failed frame leaves created accounts, balances, code and storage as they were": every mutator the frames call journals
+// exactly one entry that holds what is needed to put the previous value back, the matching revert puts it back, and — because
+// journal entries and replaced objects keep POINTERS to the previous *big.Int / *stateObject — no mutator writes through such a
+// pointer (the frame clauses below: the previous balance object and the replaced account object are not written).
+//
+// Part A restates, for C16, the clauses of property C09's contracts (core/state/verif_contracts_c09.go, same clauses, spec
+// functions renamed c09* -> c16s*) for the functions reached from the EVM frames; they are VERIFIED again under C16 so that
+// `./check C16` does not rest on another property's run. Part B adds the C16-specific clauses (aliasing frames, exact
+// balance arithmetic of AddBalance/SubBalance, SetCode).
+
+// =================================================================================================================
+// Part A — restated from C09
+// =================================================================================================================
+
+//@ spec func c16sInVR(st: *StateDB, p: int) bool = off(st.validRevisions) <= p && p < off(st.validRevisions) + len(st.validRevisions)
+//@ spec func c16sInVV(st: *StateDB, p: int) bool = off(st.valValidRevisions) <= p && p < off(st.valValidRevisions) + len(st.valValidRevisions)
+//@ spec func c16sD(st: *StateDB) int = off(st.valValidRevisions) - off(st.validRevisions)
+
+// same length, separate backing arrays
+//@ spec func c16sSep(st: *StateDB) bool = base(st.validRevisions) != base(st.valValidRevisions) || base(st.validRevisions) == 0
+//@ spec func c16sShape(st: *StateDB) bool = len(st.validRevisions) == len(st.valValidRevisions) && c16sSep(st)
+// the k-th entries of both stacks carry the same id (stated in both directions: one instance per stack element)
+//@ spec func c16sSameIds(st: *StateDB) bool =
+//@     (forall p: int :: { elems(st.validRevisions)[p] } c16sInVR(st, p) ==> elems(st.validRevisions)[p].id == elems(st.valValidRevisions)[p + c16sD(st)].id) &&
+//@     (forall q: int :: { elems(st.valValidRevisions)[q] } c16sInVV(st, q) ==> elems(st.valValidRevisions)[q].id == elems(st.validRevisions)[q - c16sD(st)].id)
+// ids strictly increasing and below the next id to be handed out
+//@ spec func c16sSorted(st: *StateDB) bool =
+//@     (forall p: int, q: int :: { elems(st.validRevisions)[p], elems(st.validRevisions)[q] } c16sInVR(st, p) && c16sInVR(st, q) && p < q ==> elems(st.validRevisions)[p].id < elems(st.validRevisions)[q].id) &&
+//@     (forall p: int :: { elems(st.validRevisions)[p] } c16sInVR(st, p) ==> elems(st.validRevisions)[p].id < st.nextRevisionId)
+// journal indexes: non-decreasing along each stack, and within the journal they index
+//@ spec func c16sIdx(st: *StateDB) bool =
+//@     (forall p: int, q: int :: { elems(st.validRevisions)[p], elems(st.validRevisions)[q] } c16sInVR(st, p) && c16sInVR(st, q) && p < q ==> elems(st.validRevisions)[p].journalIndex <= elems(st.validRevisions)[q].journalIndex) &&
+//@     (forall p: int :: { elems(st.validRevisions)[p] } c16sInVR(st, p) ==> 0 <= elems(st.validRevisions)[p].journalIndex && elems(st.validRevisions)[p].journalIndex <= len(st.journal.entries))
+//@ spec func c16sValIdx(st: *StateDB) bool =
+//@     (forall p: int, q: int :: { elems(st.valValidRevisions)[p], elems(st.valValidRevisions)[q] } c16sInVV(st, p) && c16sInVV(st, q) && p < q ==> elems(st.valValidRevisions)[p].journalIndex <= elems(st.valValidRevisions)[q].journalIndex) &&
+//@     (forall p: int :: { elems(st.valValidRevisions)[p] } c16sInVV(st, p) ==> 0 <= elems(st.valValidRevisions)[p].journalIndex && elems(st.valValidRevisions)[p].journalIndex <= len(st.validatorJournal.entries))
+
+//@ spec func c16sAligned(st: *StateDB) bool = c16sShape(st) && c16sSameIds(st) && c16sSorted(st) && c16sIdx(st) && c16sValIdx(st)
+
+//@ func (*StateDB).Snapshot props C16
+//@ panics none
+//@ requires st != nil && st.journal != nil && st.validatorJournal != nil && c16sAligned(st)
+//@ requires st.nextRevisionId < 2^62
+//@ modifies st.nextRevisionId, st.validRevisions, st.valValidRevisions, elems(st.validRevisions), elems(st.valValidRevisions)
+//@ ensures [aligned-shape] c16sShape(st)
+//@ ensures [aligned-ids] c16sSameIds(st)
+//@ ensures [aligned-sorted] c16sSorted(st)
+//@ ensures [aligned-idx] c16sIdx(st)
+//@ ensures [aligned-validx] c16sValIdx(st)
+//@ ensures [id] result == old(st.nextRevisionId) && st.nextRevisionId == result + 1
+//@ ensures [pushed] len(st.validRevisions) == old(len(st.validRevisions)) + 1 && st.validRevisions[len(st.validRevisions) - 1].id == result &&
+//@     st.validRevisions[len(st.validRevisions) - 1].journalIndex == len(st.journal.entries) &&
+//@     st.valValidRevisions[len(st.valValidRevisions) - 1].id == result &&
+//@     st.valValidRevisions[len(st.valValidRevisions) - 1].journalIndex == len(st.validatorJournal.entries)
+//@ ensures [older-kept] forall i: int :: 0 <= i && i < old(len(st.validRevisions)) ==>
+//@     st.validRevisions[i] == old(st.validRevisions[i]) && st.valValidRevisions[i] == old(st.valValidRevisions[i])
+
+// ---------------------------------------------------------------------------------------------------------------
+// Clause 3 of C09: the journal. Well-formed journal: a dirties map exists, no entry is a nil interface.
+//@ spec func c16sInEntries(j: *journal, p: int) bool = off(j.entries) <= p && p < off(j.entries) + len(j.entries)
+//@ spec func c16sJournalWF(j: *journal) bool =
+//@     j != nil && j.dirties != nil && (forall p: int :: { elems(j.entries)[p] } c16sInEntries(j, p) ==> elems(j.entries)[p] != nil)
+// The two journals of a state: distinct objects with distinct dirty maps, both well formed (established by New / Copy / clearJournalAndRefund).
+//@ spec func c16sStateOK(st: *StateDB) bool =
+//@     st != nil && c16sJournalWF(st.journal) && c16sJournalWF(st.validatorJournal) && st.journal != st.validatorJournal && st.journal.dirties != st.validatorJournal.dirties
+
+// Two-state frame "the undo machinery itself is not touched": revision stacks, next id, both journals' entry lists and dirty counts.
+// Every journalEntry.revert has this frame (each of the 18 implementations is verified against it below);
+// for the dynamically dispatched call in journal.revert it is the trusted contract of the interface method.
+//@ spec func c16sBookKept(s: *StateDB) bool =
+//@     s.validRevisions == old(s.validRevisions) && s.valValidRevisions == old(s.valValidRevisions) && s.nextRevisionId == old(s.nextRevisionId) &&
+//@     elems(s.validRevisions) == old(elems(s.validRevisions)) && elems(s.valValidRevisions) == old(elems(s.valValidRevisions)) &&
+//@     s.journal == old(s.journal) && s.validatorJournal == old(s.validatorJournal) &&
+//@     s.journal.entries == old(s.journal.entries) && elems(s.journal.entries) == old(elems(s.journal.entries)) &&
+//@     s.validatorJournal.entries == old(s.validatorJournal.entries) && elems(s.validatorJournal.entries) == old(elems(s.validatorJournal.entries)) &&
+//@     s.journal.dirties == old(s.journal.dirties) && mapdom(s.journal.dirties) == old(mapdom(s.journal.dirties)) && mapval(s.journal.dirties) == old(mapval(s.journal.dirties)) &&
+//@     s.validatorJournal.dirties == old(s.validatorJournal.dirties) && mapdom(s.validatorJournal.dirties) == old(mapdom(s.validatorJournal.dirties)) &&
+//@     mapval(s.validatorJournal.dirties) == old(mapval(s.validatorJournal.dirties))
+
+//@ func (journalEntry).revert props C16
+//@ trusted
+//@ requires arg0 != nil
+//@ modifies all
+//@ ensures c16sBookKept(arg0)
+
+// Every implementation of dirtied returns a stored pointer or nil (journal.go): no effect.
+//@ func (journalEntry).dirtied props C16
+//@ trusted
+//@ pure
+
+// journal.revert(statedb, snapshot): the entries [snapshot, len) are undone last first (the loop starts at the last entry, every
+// call is made on the entry at the loop index, the loop ends below `snapshot`); the list is cut to its first `snapshot` entries,
+// which are untouched; the other journal and the revision stacks are untouched.
+// Ghost c16sUndone counts the calls of an entry's revert: exactly len - snapshot of them ("each entry once").
+//@ ghost var c16sUndone: int
+//@ func (*journal).revert props C16
+//@ panics none
+//@ requires c16sStateOK(statedb) && (j == statedb.journal || j == statedb.validatorJournal)
+//@ requires [snapshot-in-range] 0 <= snapshot && snapshot <= len(j.entries)
+//@ modifies all, c16sUndone
+//@ let st = statedb
+//@ let n = len(j.entries)
+//@ ghost after call (journalEntry).revert: c16sUndone := c16sUndone + 1
+//@ assert before call (journalEntry).revert: [last-first] snapshot <= i && i < n && recv == old(elems(j.entries))[old(off(j.entries)) + i]
+//@ assert before return: [all-undone] i == snapshot - 1
+//@ loop i invariant [start-at-last] entry(i) == n - 1
+//@ loop i invariant [range] snapshot - 1 <= i && i < n
+//@ loop i invariant [count] c16sUndone == old(c16sUndone) + n - 1 - i
+//@ loop i invariant [entries-kept] j.entries == old(j.entries) && elems(j.entries) == old(elems(j.entries)) && j.dirties == old(j.dirties)
+//@ loop i invariant [stacks-kept] st.validRevisions == old(st.validRevisions) && st.valValidRevisions == old(st.valValidRevisions) && st.nextRevisionId == old(st.nextRevisionId) &&
+//@     elems(st.validRevisions) == old(elems(st.validRevisions)) && elems(st.valValidRevisions) == old(elems(st.valValidRevisions)) &&
+//@     st.journal == old(st.journal) && st.validatorJournal == old(st.validatorJournal)
+//@ loop i invariant [other-journal-kept] st.journal.entries == old(st.journal.entries) && st.validatorJournal.entries == old(st.validatorJournal.entries) &&
+//@     elems(st.journal.entries) == old(elems(st.journal.entries)) && elems(st.validatorJournal.entries) == old(elems(st.validatorJournal.entries)) &&
+//@     st.journal.dirties == old(st.journal.dirties) && st.validatorJournal.dirties == old(st.validatorJournal.dirties)
+//@ loop i invariant [other-dirties-kept] (st.journal != j ==> mapdom(st.journal.dirties) == old(mapdom(st.journal.dirties)) && mapval(st.journal.dirties) == old(mapval(st.journal.dirties))) &&
+//@     (st.validatorJournal != j ==> mapdom(st.validatorJournal.dirties) == old(mapdom(st.validatorJournal.dirties)) && mapval(st.validatorJournal.dirties) == old(mapval(st.validatorJournal.dirties)))
+//@ loop i decreases i - snapshot + 1
+//@ ensures [undone-count] c16sUndone == old(c16sUndone) + n - snapshot
+//@ ensures [cut] len(j.entries) == snapshot && base(j.entries) == old(base(j.entries)) && off(j.entries) == old(off(j.entries)) && cap(j.entries) == old(cap(j.entries))
+//@ ensures [prefix-kept] elems(st.journal.entries) == old(elems(st.journal.entries)) && elems(st.validatorJournal.entries) == old(elems(st.validatorJournal.entries))
+//@ ensures [wf] c16sStateOK(st)
+//@ ensures [stacks-kept] st.validRevisions == old(st.validRevisions) && st.valValidRevisions == old(st.valValidRevisions) && st.nextRevisionId == old(st.nextRevisionId) &&
+//@     elems(st.validRevisions) == old(elems(st.validRevisions)) && elems(st.valValidRevisions) == old(elems(st.valValidRevisions)) &&
+//@     st.journal == old(st.journal) && st.validatorJournal == old(st.validatorJournal)
+//@ ensures [other-journal-kept] (st.journal != j ==> st.journal.entries == old(st.journal.entries) && mapdom(st.journal.dirties) == old(mapdom(st.journal.dirties)) && mapval(st.journal.dirties) == old(mapval(st.journal.dirties))) &&
+//@     (st.validatorJournal != j ==> st.validatorJournal.entries == old(st.validatorJournal.entries) && mapdom(st.validatorJournal.dirties) == old(mapdom(st.validatorJournal.dirties)) && mapval(st.validatorJournal.dirties) == old(mapval(st.validatorJournal.dirties)))
+//@ ensures [dirties-kept] st.journal.dirties == old(st.journal.dirties) && st.validatorJournal.dirties == old(st.validatorJournal.dirties)
+
+//@ func (*StateDB).RevertToSnapshot props C16
+//@ panics none
+//@ requires c16sStateOK(st) && c16sAligned(st)
+//@ requires [valid-snapshot] exists k: int :: 0 <= k && k < len(st.validRevisions) && st.validRevisions[k].id == revid
+//@ modifies all, c16sUndone
+//@ ensures [aligned-shape] c16sShape(st)
+//@ ensures [aligned-ids] c16sSameIds(st)
+//@ ensures [aligned-sorted] c16sSorted(st)
+//@ ensures [aligned-idx] c16sIdx(st)
+//@ ensures [aligned-validx] c16sValIdx(st)
+//@ ensures [state-ok] c16sStateOK(st)
+//@ ensures [cut] forall i: int :: 0 <= i && i < len(st.validRevisions) ==> st.validRevisions[i].id < revid
+// k = the position of the snapshot: both stacks keep exactly their first k entries, both journals are cut to the lengths recorded
+// at snapshot time, and exactly as many entries as were appended since then have been undone.
+//@ ensures [cut-at-snapshot] forall k: int :: 0 <= k && k < old(len(st.validRevisions)) && old(st.validRevisions[k].id) == revid ==>
+//@     len(st.validRevisions) == k && len(st.valValidRevisions) == k &&
+//@     len(st.journal.entries) == old(st.validRevisions[k].journalIndex) && len(st.validatorJournal.entries) == old(st.valValidRevisions[k].journalIndex) &&
+//@     c16sUndone == old(c16sUndone) + (old(len(st.journal.entries)) - old(st.validRevisions[k].journalIndex)) + (old(len(st.validatorJournal.entries)) - old(st.valValidRevisions[k].journalIndex))
+//@ ensures [stacks-prefix] base(st.validRevisions) == old(base(st.validRevisions)) && off(st.validRevisions) == old(off(st.validRevisions)) &&
+//@     base(st.valValidRevisions) == old(base(st.valValidRevisions)) && off(st.valValidRevisions) == old(off(st.valValidRevisions)) &&
+//@     elems(st.validRevisions) == old(elems(st.validRevisions)) && elems(st.valValidRevisions) == old(elems(st.valValidRevisions)) &&
+//@     st.nextRevisionId == old(st.nextRevisionId)
+//@ ensures [journals-prefix] st.journal == old(st.journal) && st.validatorJournal == old(st.validatorJournal) &&
+//@     base(st.journal.entries) == old(base(st.journal.entries)) && off(st.journal.entries) == old(off(st.journal.entries)) && elems(st.journal.entries) == old(elems(st.journal.entries)) &&
+//@     base(st.validatorJournal.entries) == old(base(st.validatorJournal.entries)) && off(st.validatorJournal.entries) == old(off(st.validatorJournal.entries)) &&
+//@     elems(st.validatorJournal.entries) == old(elems(st.validatorJournal.entries))
+
+// Live object lookup. The trie / RLP path of a cache miss is outside the heap model (C13, C14): the callees on that path are
+// declared effect-free below (their results are unconstrained), which is all the cached case needs.
+//@ effectfree github.com/youchainhq/go-youchain/rlp.DecodeBytes
+//@ func (Trie).TryGet props C16
+//@ trusted
+//@ pure
+
+// An account is live in this transaction: cached, not nil, not deleted.
+//@ spec func c16sLive(s: *StateDB, a: common.Address) bool = in(a, s.stateObjects) && s.stateObjects[a] != nil && !s.stateObjects[a].deleted
+
+//@ func (*StateDB).getDeletedStateObject props C16
+//@ panics none
+//@ requires st != nil && st.stateObjects != nil
+//@ modifies st.dbErr, mapof(st.stateObjects)
+//@ ensures [cached] old(in(addr, st.stateObjects) && st.stateObjects[addr] != nil) ==>
+//@     result == old(st.stateObjects[addr]) && mapdom(st.stateObjects) == old(mapdom(st.stateObjects)) && mapval(st.stateObjects) == old(mapval(st.stateObjects)) && st.dbErr == old(st.dbErr)
+//@ ensures [loaded] result != nil && !old(in(addr, st.stateObjects) && st.stateObjects[addr] != nil) ==>
+//@     fresh(result) && in(addr, st.stateObjects) && st.stateObjects[addr] == result && result.address == addr && !result.deleted && result.data.Balance != nil && result.db == st
+//@ ensures [miss] result == nil ==> !old(in(addr, st.stateObjects) && st.stateObjects[addr] != nil) &&
+//@     mapdom(st.stateObjects) == old(mapdom(st.stateObjects)) && mapval(st.stateObjects) == old(mapval(st.stateObjects))
+//@ ensures [others-kept] forall a: common.Address :: a != addr ==> st.stateObjects[a] == old(st.stateObjects[a]) && in(a, st.stateObjects) == old(in(a, st.stateObjects))
+
+//@ func (*StateDB).getStateObject props C16
+//@ panics none
+//@ requires st != nil && st.stateObjects != nil
+//@ modifies st.dbErr, mapof(st.stateObjects)
+//@ ensures [live] old(c16sLive(st, addr)) ==>
+//@     stateObject == old(st.stateObjects[addr]) && mapdom(st.stateObjects) == old(mapdom(st.stateObjects)) && mapval(st.stateObjects) == old(mapval(st.stateObjects)) && st.dbErr == old(st.dbErr)
+//@ ensures [deleted] old(in(addr, st.stateObjects) && st.stateObjects[addr] != nil && st.stateObjects[addr].deleted) ==>
+//@     stateObject == nil && mapdom(st.stateObjects) == old(mapdom(st.stateObjects)) && mapval(st.stateObjects) == old(mapval(st.stateObjects)) && st.dbErr == old(st.dbErr)
+//@ ensures [miss] stateObject == nil && !old(in(addr, st.stateObjects) && st.stateObjects[addr] != nil) ==>
+//@     mapdom(st.stateObjects) == old(mapdom(st.stateObjects)) && mapval(st.stateObjects) == old(mapval(st.stateObjects))
+//@ ensures [loaded] stateObject != nil && !old(in(addr, st.stateObjects) && st.stateObjects[addr] != nil) ==>
+//@     fresh(stateObject) && in(addr, st.stateObjects) && st.stateObjects[addr] == stateObject && stateObject.address == addr && !stateObject.deleted &&
+//@     stateObject.data.Balance != nil && stateObject.db == st
+//@ ensures [others-kept] forall a: common.Address :: a != addr ==> st.stateObjects[a] == old(st.stateObjects[a]) && in(a, st.stateObjects) == old(in(a, st.stateObjects))
+
+// (*journal).append has no C09 contract on purpose: its parameter is called `entry`, a contract keyword, so the appended value cannot be
+// named in a contract (engine_requests/C09.md R4); being small and loop-free it is inlined into the mutators below.
+// The last entry of a journal.
+//@ spec func c16sLast(j: *journal) journalEntry = j.entries[len(j.entries) - 1]
+
+// --- balance ---------------------------------------------------------------------------------------------------
+//@ func (*stateObject).SetBalance props C16
+//@ panics none
+//@ requires so != nil && so.db != nil && c16sJournalWF(so.db.journal) && so.data.Balance != nil
+//@ let j = so.db.journal
+//@ modifies so.data.Balance, j.entries, elems(j.entries), mapof(j.dirties)
+//@ ensures [journalled] len(j.entries) == old(len(j.entries)) + 1 && hastype(c16sLast(j), balanceChange) &&
+//@     *unbox(c16sLast(j), balanceChange).account == so.address &&
+//@     unbox(c16sLast(j), balanceChange).prev != nil && big(unbox(c16sLast(j), balanceChange).prev) == old(big(so.data.Balance))
+//@ ensures [set] so.data.Balance == amount
+//@ ensures [wf] c16sJournalWF(j)
+//@ ensures [previous-balance-object-untouched] big(old(so.data.Balance)) == old(big(so.data.Balance))
+
+//@ func (balanceChange).revert props C16
+//@ panics none
+//@ requires s != nil && s.stateObjects != nil && ch.account != nil && c16sLive(s, *ch.account)
+//@ let obj = s.stateObjects[*ch.account]
+//@ modifies s.dbErr, mapof(s.stateObjects), obj.data.Balance
+//@ ensures [restored] obj.data.Balance == ch.prev
+//@ ensures [objects-kept] mapdom(s.stateObjects) == old(mapdom(s.stateObjects)) && mapval(s.stateObjects) == old(mapval(s.stateObjects)) && s.dbErr == old(s.dbErr)
+//@ ensures [book-kept] c16sBookKept(s)
+
+// --- suicide ---------------------------------------------------------------------------------------------------
+//@ func (*StateDB).Suicide props C16
+//@ panics none
+//@ requires st != nil && st.stateObjects != nil && c16sJournalWF(st.journal)
+// the account is cached (the EVM only self-destructs the executing contract, which it has loaded); the trie-load path is not covered
+//@ requires [cached] in(addr, st.stateObjects) && st.stateObjects[addr] != nil && st.stateObjects[addr].data.Balance != nil
+//@ let j = st.journal
+//@ let obj = st.stateObjects[addr]
+//@ modifies st.dbErr, mapof(st.stateObjects), obj.suicided, obj.data.Balance, j.entries, elems(j.entries), mapof(j.dirties)
+// C16: journal entries (balanceChange.prev, suicideChange.prevbalance) and replaced account objects (resetObjectChange.prev, whose
+// balance CreateAccount carried over BY POINTER) keep pointers to earlier balance objects: zeroing must install a NEW integer and
+// must not write the integer the account pointed to before, or a later revert restores a zeroed balance (value is lost).
+//@ ensures [previous-balance-object-untouched] old(c16sLive(st, addr)) ==> big(old(obj.data.Balance)) == old(big(obj.data.Balance))
+//@ ensures [new-zero-balance-object] old(c16sLive(st, addr)) ==> obj.data.Balance != old(obj.data.Balance)
+//@ ensures [live] old(c16sLive(st, addr)) ==> result && len(j.entries) == old(len(j.entries)) + 1 && hastype(c16sLast(j), suicideChange) &&
+//@     *unbox(c16sLast(j), suicideChange).account == addr && unbox(c16sLast(j), suicideChange).prev == old(obj.suicided) &&
+//@     unbox(c16sLast(j), suicideChange).prevbalance != nil && big(unbox(c16sLast(j), suicideChange).prevbalance) == old(big(obj.data.Balance)) &&
+//@     obj.suicided && fresh(obj.data.Balance) && big(obj.data.Balance) == 0
+//@ ensures [absent-noop] !result ==> len(j.entries) == old(len(j.entries))
+//@ ensures [wf] c16sJournalWF(j)
+
+//@ func (suicideChange).revert props C16
+//@ panics none
+//@ requires s != nil && s.stateObjects != nil && ch.account != nil && c16sLive(s, *ch.account)
+//@ let obj = s.stateObjects[*ch.account]
+//@ modifies s.dbErr, mapof(s.stateObjects), obj.suicided, obj.data.Balance
+//@ ensures [restored] obj.suicided == ch.prev && obj.data.Balance == ch.prevbalance
+//@ ensures [objects-kept] mapdom(s.stateObjects) == old(mapdom(s.stateObjects)) && mapval(s.stateObjects) == old(mapval(s.stateObjects)) && s.dbErr == old(s.dbErr)
+//@ ensures [book-kept] c16sBookKept(s)
+
+// --- storage: the observable of a slot is the dirty value when there is one -----------------------------------------
+//@ func (*stateObject).setState props C16
+//@ panics none
+//@ requires [nonnil] so != nil && so.dirtyStorage != nil
+//@ modifies mapof(so.dirtyStorage)
+//@ ensures [set] in(key, so.dirtyStorage) && so.dirtyStorage[key] == value
+//@ ensures [other-slots-kept] forall k: common.Hash :: k != key ==> so.dirtyStorage[k] == old(so.dirtyStorage[k]) && in(k, so.dirtyStorage) == old(in(k, so.dirtyStorage))
+
+//@ func (storageChange).revert props C16
+//@ panics none
+//@ requires s != nil && s.stateObjects != nil && ch.account != nil && c16sLive(s, *ch.account) && s.stateObjects[*ch.account].dirtyStorage != nil
+//@ let obj = s.stateObjects[*ch.account]
+//@ modifies s.dbErr, mapof(s.stateObjects), mapof(obj.dirtyStorage)
+//@ ensures [restored] in(ch.key, obj.dirtyStorage) && obj.dirtyStorage[ch.key] == ch.prevalue
+//@ ensures [other-slots-kept] forall k: common.Hash :: k != ch.key ==> obj.dirtyStorage[k] == old(obj.dirtyStorage[k]) && in(k, obj.dirtyStorage) == old(in(k, obj.dirtyStorage))
+//@ ensures [objects-kept] mapdom(s.stateObjects) == old(mapdom(s.stateObjects)) && mapval(s.stateObjects) == old(mapval(s.stateObjects)) && s.dbErr == old(s.dbErr)
+//@ ensures [book-kept] c16sBookKept(s)
+
+// --- account creation ------------------------------------------------------------------------------------------------
+//@ func (createObjectChange).revert props C16
+//@ panics none
+//@ requires s != nil && ch.account != nil
+//@ modifies mapof(s.stateObjects), mapof(s.stateObjectsDirty)
+//@ ensures [restored] !in(*ch.account, s.stateObjects) && !in(*ch.account, s.stateObjectsDirty)
+//@ ensures [others-kept] forall a: common.Address :: a != *ch.account ==> s.stateObjects[a] == old(s.stateObjects[a]) && in(a, s.stateObjects) == old(in(a, s.stateObjects))
+//@ ensures [book-kept] c16sBookKept(s)
+
+//@ func (resetObjectChange).revert props C16
+//@ panics none
+//@ requires s != nil && s.stateObjects != nil && ch.prev != nil
+//@ modifies mapof(s.stateObjects)
+//@ ensures [restored] in(ch.prev.address, s.stateObjects) && s.stateObjects[ch.prev.address] == ch.prev
+//@ ensures [others-kept] forall a: common.Address :: a != ch.prev.address ==> s.stateObjects[a] == old(s.stateObjects[a]) && in(a, s.stateObjects) == old(in(a, s.stateObjects))
+//@ ensures [book-kept] c16sBookKept(s)
+
+//@ effectfree bytes.Equal
+//@ func (*stateObject).empty props C16
+//@ panics none
+//@ requires so != nil && so.data.Balance != nil
+//@ pure
+
+// Every cached account object is usable: not nil, has a balance and a pending-storage map (newObject establishes it).
+//@ spec func c16sObjectsWF(st: *StateDB) bool =
+//@     st.stateObjects != nil && (forall a: common.Address :: { st.stateObjects[a] } in(a, st.stateObjects) ==>
+//@         st.stateObjects[a] != nil && st.stateObjects[a].data.Balance != nil && st.stateObjects[a].pendingStorage != nil)
+
+//@ spec func c16sQueueWF(q: *WithdrawQueue) bool =
+//@     q != nil && (forall p: int :: { elems(q.Records)[p] } off(q.Records) <= p && p < off(q.Records) + len(q.Records) ==> elems(q.Records)[p] != nil)
+//@ spec func c16sSameRecord(a: *WithdrawRecord, b: *WithdrawRecord) bool = a.Operator == b.Operator && a.Nonce == b.Nonce
+
+// --- storage mutator -------------------------------------------------------------------------------------------------
+// Committed (non-dirty) slot values come from pending/origin storage or the storage trie (C13): ASSUMED thin frame.
+//@ func (*stateObject).GetCommittedState props C16
+//@ nobody
+//@ requires so != nil
+//@ modifies so.dbErr, so.trie, mapof(so.originStorage)
+
+//@ func (*stateObject).GetState props C16
+//@ panics none
+//@ requires so != nil
+//@ modifies so.dbErr, so.trie, mapof(so.originStorage)
+//@ ensures [dirty] old(in(key, so.dirtyStorage)) ==> result == old(so.dirtyStorage[key]) && so.dbErr == old(so.dbErr) && so.trie == old(so.trie) &&
+//@     mapdom(so.originStorage) == old(mapdom(so.originStorage)) && mapval(so.originStorage) == old(mapval(so.originStorage))
+
+// SetState: a real change of a slot appends one storageChange carrying the slot's key and previous value, then stores the new value.
+// (Previous value decided for slots with a dirty value; for clean slots it is whatever GetCommittedState returned.)
+//@ func (*stateObject).SetState props C16
+//@ panics none
+//@ requires so != nil && so.db != nil && c16sJournalWF(so.db.journal) && so.dirtyStorage != nil && so.dirtyStorage != so.originStorage
+//@ let j = so.db.journal
+//@ modifies so.dbErr, so.trie, mapof(so.originStorage), mapof(so.dirtyStorage), j.entries, elems(j.entries), mapof(j.dirties)
+//@ ensures [journalled] old(in(key, so.dirtyStorage)) && old(so.dirtyStorage[key]) != value ==>
+//@     len(j.entries) == old(len(j.entries)) + 1 && hastype(c16sLast(j), storageChange) && *unbox(c16sLast(j), storageChange).account == so.address &&
+//@     unbox(c16sLast(j), storageChange).key == key && unbox(c16sLast(j), storageChange).prevalue == old(so.dirtyStorage[key])
+//@ ensures [same-value-noop] old(in(key, so.dirtyStorage)) && old(so.dirtyStorage[key]) == value ==>
+//@     len(j.entries) == old(len(j.entries)) && mapdom(so.dirtyStorage) == old(mapdom(so.dirtyStorage)) && mapval(so.dirtyStorage) == old(mapval(so.dirtyStorage))
+//@ ensures [set] len(j.entries) == old(len(j.entries)) + 1 ==> in(key, so.dirtyStorage) && so.dirtyStorage[key] == value
+//@ ensures [one-entry-at-most] len(j.entries) == old(len(j.entries)) || (len(j.entries) == old(len(j.entries)) + 1 && hastype(c16sLast(j), storageChange) && unbox(c16sLast(j), storageChange).key == key)
+//@ ensures [wf] c16sJournalWF(j)
+
+// --- code ------------------------------------------------------------------------------------------------------------
+// revert of SetCode: the previous code is the object's code again and the code hash is a fresh 32-byte value built from the recorded
+// hash (common.BytesToHash; that its bytes equal the recorded ones is byte-copy arithmetic, not decided here).
+//@ func (codeChange).revert props C16
+//@ panics none
+//@ requires s != nil && s.stateObjects != nil && ch.account != nil && c16sLive(s, *ch.account)
+//@ let obj = s.stateObjects[*ch.account]
+//@ modifies s.dbErr, mapof(s.stateObjects), obj.code, obj.data.CodeHash, obj.dirtyCode
+//@ ensures [restored] obj.code == ch.prevcode && len(obj.data.CodeHash) == 32 && obj.dirtyCode
+//@ ensures [objects-kept] mapdom(s.stateObjects) == old(mapdom(s.stateObjects)) && mapval(s.stateObjects) == old(mapval(s.stateObjects)) && s.dbErr == old(s.dbErr)
+//@ ensures [book-kept] c16sBookKept(s)
+
+// --- account (re-)creation -----------------------------------------------------------------------------------------------
+// An object for the address is in the live set (stateObjects), DELETED OR NOT. A deleted object is the only record, until the end of
+// the block, that an earlier transaction destructed the account: it must survive a reverted re-creation.
+//@ spec func c16sCached(s: *StateDB, a: common.Address) bool = in(a, s.stateObjects) && s.stateObjects[a] != nil
+
+// createObject(addr): prev = the live-set object of addr (deleted or not), else the object loaded from the trie, else nil.
+// [journalled]: with a prev the appended entry is a resetObjectChange holding EXACTLY prev (so its revert puts prev back under addr,
+// (resetObjectChange).revert#[restored]); only without any prev it is a createObjectChange for addr (whose revert removes the key,
+// (createObjectChange).revert#[restored], which is then again "no object for addr"). Either way the revert of the appended entry leaves
+// the live-set entry of addr as it was before createObject (as getDeletedStateObject left it, for a trie load).
+//@ func (*StateDB).createObject props C16
+//@ panics none
+//@ requires st != nil && st.stateObjects != nil && c16sJournalWF(st.journal)
+//@ requires [keyed] c16sCached(st, addr) ==> st.stateObjects[addr].address == addr
+//@ let j = st.journal
+//@ modifies st.dbErr, mapof(st.stateObjects), j.entries, elems(j.entries), mapof(j.dirties)
+//@ ensures [prev-is-live-object] old(c16sCached(st, addr)) ==> prev == old(st.stateObjects[addr])
+//@ ensures [prev-nil-only-if-absent] prev == nil ==> !old(c16sCached(st, addr))
+//@ ensures [journalled-reset] prev != nil ==> len(j.entries) == old(len(j.entries)) + 1 && hastype(c16sLast(j), resetObjectChange) &&
+//@     unbox(c16sLast(j), resetObjectChange).prev == prev && prev.address == addr
+//@ ensures [journalled-create] prev == nil ==> len(j.entries) == old(len(j.entries)) + 1 && hastype(c16sLast(j), createObjectChange) &&
+//@     unbox(c16sLast(j), createObjectChange).account != nil && *unbox(c16sLast(j), createObjectChange).account == addr
+//@ ensures [installed] newobj != nil && fresh(newobj) && in(addr, st.stateObjects) && st.stateObjects[addr] == newobj && newobj.address == addr && newobj.db == st &&
+//@     newobj.data.Nonce == 0 && newobj.data.Balance != nil && fresh(newobj.data.Balance) && big(newobj.data.Balance) == 0 && !newobj.deleted && !newobj.suicided
+//@ ensures [others-kept] forall a: common.Address :: a != addr ==> st.stateObjects[a] == old(st.stateObjects[a]) && in(a, st.stateObjects) == old(in(a, st.stateObjects))
+//@ ensures [prev-untouched] prev != nil && old(c16sCached(st, addr)) ==> prev.deleted == old(st.stateObjects[addr].deleted) && prev.data.Balance == old(st.stateObjects[addr].data.Balance)
+//@ ensures [journal-array] base(j.entries) == old(base(j.entries)) || fresh(j.entries)
+//@ ensures [wf] c16sJournalWF(j)
+
+// CreateAccount(addr): createObject, then the balance of a previous object (if any) is carried over to the new one.
+//@ func (*StateDB).CreateAccount props C16
+//@ panics none
+//@ requires st != nil && st.stateObjects != nil && c16sJournalWF(st.journal)
+//@ requires [keyed] c16sCached(st, addr) ==> st.stateObjects[addr].address == addr
+//@ let j = st.journal
+//@ let was = st.stateObjects[addr]
+//@ modifies st.dbErr, mapof(st.stateObjects), j.entries, elems(j.entries), mapof(j.dirties)
+//@ ensures [journalled-reset] old(c16sCached(st, addr)) ==> len(j.entries) == old(len(j.entries)) + 1 && hastype(c16sLast(j), resetObjectChange) &&
+//@     unbox(c16sLast(j), resetObjectChange).prev == was
+//@ ensures [journalled] len(j.entries) == old(len(j.entries)) + 1 && (hastype(c16sLast(j), resetObjectChange) || hastype(c16sLast(j), createObjectChange))
+//@ ensures [installed] in(addr, st.stateObjects) && st.stateObjects[addr] != nil && fresh(st.stateObjects[addr]) && st.stateObjects[addr].data.Nonce == 0
+//@ ensures [balance-carried] old(c16sCached(st, addr)) ==> st.stateObjects[addr].data.Balance == old(was.data.Balance)
+//@ ensures [others-kept] forall a: common.Address :: a != addr ==> st.stateObjects[a] == old(st.stateObjects[a]) && in(a, st.stateObjects) == old(in(a, st.stateObjects))
+// C16: "CreateAccount carries the balance over" (interface contract in core/vm) and the replaced object, which the undo record
+// holds, is left exactly as it was (it is what a revert puts back).
+//@ ensures [balance-value-carried] old(c16sCached(st, addr)) && old(was.data.Balance) != nil ==> big(st.stateObjects[addr].data.Balance) == old(big(was.data.Balance))
+//@ ensures [no-predecessor-zero-balance] hastype(c16sLast(j), createObjectChange) ==> st.stateObjects[addr].data.Balance != nil && big(st.stateObjects[addr].data.Balance) == 0
+//@ ensures [replaced-object-untouched] old(c16sCached(st, addr)) ==> was.deleted == old(was.deleted) && was.suicided == old(was.suicided) && was.data.Nonce == old(was.data.Nonce) &&
+//@     was.data.Balance == old(was.data.Balance) && (old(was.data.Balance) != nil ==> big(was.data.Balance) == old(big(was.data.Balance))) && was.code == old(was.code) &&
+//@     was.dirtyStorage == old(was.dirtyStorage) && was.address == old(was.address)
+
+// =================================================================================================================
+// Part B — C16-specific clauses
+// =================================================================================================================
+
+// Balance arithmetic of one account object: exact, in a NEW integer; the integer the account pointed to before (still referenced
+// by journal entries / replaced objects) and the amount are not written; a zero amount changes no balance (it may record a touch).
+//@ func (*stateObject).touch props C16
+//@ requires so != nil && so.db != nil && c16sJournalWF(so.db.journal)
+//@ let j = so.db.journal
+//@ modifies j.entries, elems(j.entries), mapof(j.dirties)
+//@ ensures [journalled] len(j.entries) == old(len(j.entries)) + 1 && hastype(c16sLast(j), touchChange)
+//@ ensures [wf] c16sJournalWF(j)
+
+//@ func (*stateObject).AddBalance props C16
+//@ requires so != nil && so.db != nil && c16sJournalWF(so.db.journal) && so.data.Balance != nil && amount != nil
+//@ let j = so.db.journal
+//@ modifies so.data.Balance, j.entries, elems(j.entries), mapof(j.dirties)
+//@ ensures [exact] big(so.data.Balance) == old(big(so.data.Balance)) + old(big(amount))
+//@ ensures [zero-amount-keeps-balance-object] old(big(amount)) == 0 ==> so.data.Balance == old(so.data.Balance)
+//@ ensures [journalled] old(big(amount)) != 0 ==> len(j.entries) == old(len(j.entries)) + 1 && hastype(c16sLast(j), balanceChange) &&
+//@     *unbox(c16sLast(j), balanceChange).account == so.address && big(unbox(c16sLast(j), balanceChange).prev) == old(big(so.data.Balance))
+//@ ensures [new-balance-object] old(big(amount)) != 0 ==> fresh(so.data.Balance)
+//@ ensures [previous-balance-object-untouched] big(old(so.data.Balance)) == old(big(so.data.Balance)) && big(amount) == old(big(amount))
+//@ ensures [wf] c16sJournalWF(j)
+
+//@ func (*stateObject).SubBalance props C16
+//@ requires so != nil && so.db != nil && c16sJournalWF(so.db.journal) && so.data.Balance != nil && amount != nil
+//@ let j = so.db.journal
+//@ modifies so.data.Balance, j.entries, elems(j.entries), mapof(j.dirties)
+//@ ensures [exact] big(so.data.Balance) == old(big(so.data.Balance)) - old(big(amount))
+//@ ensures [zero-amount-is-noop] old(big(amount)) == 0 ==> so.data.Balance == old(so.data.Balance) && len(j.entries) == old(len(j.entries))
+//@ ensures [journalled] old(big(amount)) != 0 ==> len(j.entries) == old(len(j.entries)) + 1 && hastype(c16sLast(j), balanceChange) &&
+//@     *unbox(c16sLast(j), balanceChange).account == so.address && big(unbox(c16sLast(j), balanceChange).prev) == old(big(so.data.Balance))
+//@ ensures [new-balance-object] old(big(amount)) != 0 ==> fresh(so.data.Balance)
+//@ ensures [previous-balance-object-untouched] big(old(so.data.Balance)) == old(big(so.data.Balance)) && big(amount) == old(big(amount))
+//@ ensures [wf] c16sJournalWF(j)
+
+// ---------------------------------------------------------------------------------------------------------------
+// The vm.StateDB methods themselves (what (*EVM).Call / create / opSuicide actually invoke): object lookup, then the object
+// mutator above. Cached objects are keyed by their own address, belong to this state and have a balance (newObject).
+// ---------------------------------------------------------------------------------------------------------------
+//@ spec func c16sObjOK(st: *StateDB, a: common.Address) bool =
+//@     c16sCached(st, a) ==> st.stateObjects[a].address == a && st.stateObjects[a].db == st && st.stateObjects[a].data.Balance != nil
+
+//@ func (*StateDB).GetOrNewStateObject props C16
+//@ requires st != nil && st.stateObjects != nil && c16sJournalWF(st.journal) && c16sObjOK(st, addr)
+//@ let j = st.journal
+//@ modifies st.dbErr, mapof(st.stateObjects), j.entries, elems(j.entries), mapof(j.dirties)
+//@ ensures [live-object-returned] old(c16sLive(st, addr)) ==> result == old(st.stateObjects[addr]) && len(j.entries) == old(len(j.entries)) &&
+//@     mapdom(st.stateObjects) == old(mapdom(st.stateObjects)) && mapval(st.stateObjects) == old(mapval(st.stateObjects))
+//@ ensures [deleted-object-replaced] old(c16sCached(st, addr)) && old(st.stateObjects[addr].deleted) ==> fresh(result) && big(result.data.Balance) == 0 &&
+//@     len(j.entries) == old(len(j.entries)) + 1 && hastype(c16sLast(j), resetObjectChange) && unbox(c16sLast(j), resetObjectChange).prev == old(st.stateObjects[addr])
+//@ ensures [result] result != nil && in(addr, st.stateObjects) && st.stateObjects[addr] == result && result.data.Balance != nil && result.db == st && result.address == addr
+//@ ensures [others-kept] forall a: common.Address :: a != addr ==> st.stateObjects[a] == old(st.stateObjects[a]) && in(a, st.stateObjects) == old(in(a, st.stateObjects))
+//@ ensures [journal-array] base(j.entries) == old(base(j.entries)) || fresh(j.entries)
+//@ ensures [old-or-new] result == old(st.stateObjects[addr]) || fresh(result)
+//@ ensures [wf] c16sJournalWF(j)
+
+//@ func (*StateDB).AddBalance props C16
+//@ requires st != nil && st.stateObjects != nil && c16sJournalWF(st.journal) && c16sObjOK(st, addr) && amount != nil
+//@ let j = st.journal
+//@ let was = st.stateObjects[addr]
+//@ modifies st.dbErr, mapof(st.stateObjects), was.data.Balance, j.entries, elems(j.entries), mapof(j.dirties)
+//@ ensures [exact] old(c16sLive(st, addr)) ==> st.stateObjects[addr] == was && big(was.data.Balance) == old(big(was.data.Balance)) + old(big(amount))
+//@ ensures [exact-after-deletion] old(c16sCached(st, addr)) && old(was.deleted) ==> big(st.stateObjects[addr].data.Balance) == old(big(amount)) && was.data.Balance == old(was.data.Balance)
+//@ ensures [previous-balance-object-untouched] old(c16sCached(st, addr)) ==> big(old(was.data.Balance)) == old(big(was.data.Balance))
+//@ ensures [others-kept] forall a: common.Address :: a != addr ==> st.stateObjects[a] == old(st.stateObjects[a]) && in(a, st.stateObjects) == old(in(a, st.stateObjects))
+//@ ensures [wf] c16sJournalWF(j)
+
+//@ func (*StateDB).SubBalance props C16
+//@ requires st != nil && st.stateObjects != nil && c16sJournalWF(st.journal) && c16sObjOK(st, addr) && amount != nil
+//@ let j = st.journal
+//@ let was = st.stateObjects[addr]
+//@ modifies st.dbErr, mapof(st.stateObjects), was.data.Balance, j.entries, elems(j.entries), mapof(j.dirties)
+//@ ensures [exact] old(c16sLive(st, addr)) ==> st.stateObjects[addr] == was && big(was.data.Balance) == old(big(was.data.Balance)) - old(big(amount))
+//@ ensures [previous-balance-object-untouched] old(c16sCached(st, addr)) ==> big(old(was.data.Balance)) == old(big(was.data.Balance))
+//@ ensures [others-kept] forall a: common.Address :: a != addr ==> st.stateObjects[a] == old(st.stateObjects[a]) && in(a, st.stateObjects) == old(in(a, st.stateObjects))
+//@ ensures [wf] c16sJournalWF(j)
+
+// --- code ---------------------------------------------------------------------------------------------------------
+// contract code store (outside the modelled heap)
+//@ func (Database).ContractCode props C16
+//@ trusted
+//@ pure
+
+//@ func (*stateObject).Code props C16
+//@ requires so != nil
+//@ modifies so.code, so.dbErr
+//@ ensures [cached] !isnil(old(so.code)) ==> result == old(so.code) && so.code == old(so.code) && so.dbErr == old(so.dbErr)
+
+// SetCode: one codeChange entry holding the previous code and previous hash, then the new code.
+//@ func (*stateObject).SetCode props C16
+//@ requires so != nil && so.db != nil && c16sJournalWF(so.db.journal)
+//@ let j = so.db.journal
+//@ modifies so.code, so.dbErr, so.data.CodeHash, so.dirtyCode, j.entries, elems(j.entries), mapof(j.dirties)
+//@ ensures [journalled] len(j.entries) == old(len(j.entries)) + 1 && hastype(c16sLast(j), codeChange) && *unbox(c16sLast(j), codeChange).account == so.address &&
+//@     unbox(c16sLast(j), codeChange).prevhash == old(so.data.CodeHash) && (!isnil(old(so.code)) ==> unbox(c16sLast(j), codeChange).prevcode == old(so.code))
+//@ ensures [previous-hash-bytes-untouched] elems(old(so.data.CodeHash)) == old(elems(so.data.CodeHash))
+//@ ensures [set] so.code == code && so.dirtyCode && len(so.data.CodeHash) == 32
+//@ ensures [wf] c16sJournalWF(j)
+
+//@ func (*StateDB).SetCode props C16
+//@ requires st != nil && st.stateObjects != nil && c16sJournalWF(st.journal) && c16sObjOK(st, addr)
+//@ let j = st.journal
+//@ let was = st.stateObjects[addr]
+//@ modifies st.dbErr, mapof(st.stateObjects), was.code, was.dbErr, was.data.CodeHash, was.dirtyCode, j.entries, elems(j.entries), mapof(j.dirties)
+//@ ensures [journalled] old(c16sLive(st, addr)) ==> st.stateObjects[addr] == was && len(j.entries) == old(len(j.entries)) + 1 && hastype(c16sLast(j), codeChange) &&
+//@     *unbox(c16sLast(j), codeChange).account == addr && unbox(c16sLast(j), codeChange).prevhash == old(was.data.CodeHash) &&
+//@     (!isnil(old(was.code)) ==> unbox(c16sLast(j), codeChange).prevcode == old(was.code))
+//@ ensures [set] st.stateObjects[addr].code == code
+//@ ensures [others-kept] forall a: common.Address :: a != addr ==> st.stateObjects[a] == old(st.stateObjects[a]) && in(a, st.stateObjects) == old(in(a, st.stateObjects))
+//@ ensures [wf] c16sJournalWF(j)
+
+
+// ---------------------------------------------------------------------------------------------------------------
+// Periphery: logs and nonces (restated from C09: "logs" are among the observables of the statement; create bumps the caller's
+// nonce and sets the new account's nonce inside the snapshot), and the readers the frames use before the first write.
+// ---------------------------------------------------------------------------------------------------------------
+
+// --- nonce -----------------------------------------------------------------------------------------------------
+//@ func (*stateObject).SetNonce props C16
+//@ panics none
+//@ requires so != nil && so.db != nil && c16sJournalWF(so.db.journal)
+//@ let j = so.db.journal
+//@ modifies so.data.Nonce, j.entries, elems(j.entries), mapof(j.dirties)
+//@ ensures [journalled] len(j.entries) == old(len(j.entries)) + 1 && hastype(c16sLast(j), nonceChange) &&
+//@     *unbox(c16sLast(j), nonceChange).account == so.address && unbox(c16sLast(j), nonceChange).prev == old(so.data.Nonce)
+//@ ensures [set] so.data.Nonce == nonce
+//@ ensures [wf] c16sJournalWF(j)
+
+//@ func (nonceChange).revert props C16
+//@ panics none
+//@ requires s != nil && s.stateObjects != nil && ch.account != nil && c16sLive(s, *ch.account)
+//@ let obj = s.stateObjects[*ch.account]
+//@ modifies s.dbErr, mapof(s.stateObjects), obj.data.Nonce
+//@ ensures [restored] obj.data.Nonce == ch.prev
+//@ ensures [objects-kept] mapdom(s.stateObjects) == old(mapdom(s.stateObjects)) && mapval(s.stateObjects) == old(mapval(s.stateObjects)) && s.dbErr == old(s.dbErr)
+//@ ensures [book-kept] c16sBookKept(s)
+
+// --- logs ------------------------------------------------------------------------------------------------------
+//@ func (*StateDB).AddLog props C16
+//@ panics none
+//@ requires st != nil && c16sJournalWF(st.journal) && st.logs != nil && log != nil
+//@ let j = st.journal
+//@ let h = st.thash
+//@ modifies st.logSize, mapof(st.logs), elems(st.logs[st.thash]), log.TxHash, log.BlockHash, log.TxIndex, log.Index, j.entries, elems(j.entries), mapof(j.dirties)
+//@ ensures [journalled] len(j.entries) == old(len(j.entries)) + 1 && hastype(c16sLast(j), addLogChange) && unbox(c16sLast(j), addLogChange).txhash == h
+//@ ensures [added] len(st.logs[h]) == old(len(st.logs[h])) + 1 && st.logs[h][len(st.logs[h]) - 1] == log && st.logSize == wrap64(old(st.logSize) + 1)
+//@ ensures [others-kept] forall k: common.Hash :: k != h ==> st.logs[k] == old(st.logs[k]) && in(k, st.logs) == old(in(k, st.logs))
+//@ ensures [wf] c16sJournalWF(j)
+
+// revert of AddLog: the last log of that transaction hash is dropped (the key disappears with its last log), logSize goes back by one.
+//@ func (addLogChange).revert props C16
+//@ panics none
+//@ requires s != nil && s.logs != nil
+//@ requires [has-log] in(ch.txhash, s.logs) && len(s.logs[ch.txhash]) >= 1
+//@ modifies s.logSize, mapof(s.logs)
+//@ ensures [restored] len(s.logs[ch.txhash]) == old(len(s.logs[ch.txhash])) - 1 && s.logSize == wrap64(old(s.logSize) - 1) &&
+//@     (len(s.logs[ch.txhash]) > 0 ==> base(s.logs[ch.txhash]) == old(base(s.logs[ch.txhash])) && off(s.logs[ch.txhash]) == old(off(s.logs[ch.txhash])))
+//@ ensures [key-dropped] in(ch.txhash, s.logs) <==> old(len(s.logs[ch.txhash])) > 1
+//@ ensures [others-kept] forall k: common.Hash :: k != ch.txhash ==> s.logs[k] == old(s.logs[k]) && in(k, s.logs) == old(in(k, s.logs))
+//@ ensures [book-kept] c16sBookKept(s)
+
+// Readers: they may fill the object cache from the trie, nothing else — no journal entry, no object field is written.
+//@ func (*StateDB).GetBalance props C16
+//@ requires st != nil && st.stateObjects != nil
+//@ modifies st.dbErr, mapof(st.stateObjects)
+//@ ensures [live] old(c16sLive(st, addr)) ==> result == old(st.stateObjects[addr].data.Balance)
+//@ ensures [deleted-is-zero] old(c16sCached(st, addr)) && old(st.stateObjects[addr].deleted) ==> result != nil && big(result) == 0
+
+//@ func (*StateDB).Exist props C16
+//@ requires st != nil && st.stateObjects != nil
+//@ modifies st.dbErr, mapof(st.stateObjects)
+//@ ensures [live] old(c16sLive(st, addr)) ==> result
+//@ ensures [deleted] old(c16sCached(st, addr)) && old(st.stateObjects[addr].deleted) ==> !result
